@@ -144,6 +144,32 @@ func c19Literals(tier string) []c19Lit {
 		put(c19Lit{S: s, Fam: "reject", Mode: c19MustReject})
 	}
 	put(c19Lit{S: "", Fam: "empty", Mode: c19Recorded})
+	// every string over a small alphabet up to a length bound: the reference grammar decides which are
+	// decimal numerals (and their value); the rest must be rejected. Only judged alone (family "enum" is
+	// not part of the pair product).
+	maxLen := 5
+	if tier == "thorough" {
+		maxLen = 6
+	}
+	sigma := []byte("015.-+e")
+	var rec func(cur []byte)
+	rec = func(cur []byte) {
+		if len(cur) > 0 {
+			str := string(cur)
+			if p, err := ref.Parse(str); err == nil {
+				put(c19Lit{S: str, R: p.R, Fam: "enum", Mode: c19Spelling})
+			} else {
+				put(c19Lit{S: str, Fam: "enum", Mode: c19MustReject})
+			}
+		}
+		if len(cur) == maxLen {
+			return
+		}
+		for _, ch := range sigma {
+			rec(append(cur, ch))
+		}
+	}
+	rec(nil)
 	sort.SliceStable(out, func(i, j int) bool {
 		if len(out[i].S) != len(out[j].S) {
 			return len(out[i].S) < len(out[j].S)
@@ -564,7 +590,7 @@ func C19(tier string) int {
 		return 2
 	}
 	o.Assumptions = []string{
-		"bounded: decimals are the literals of family D (signs x listed coefficients of 1..40 digits x listed exponents in -34..+40, in scientific and plain notation, plus unusual spellings and non-decimal strings); all ordered pairs of accepted literals are evaluated; nothing is sampled",
+		"every string over the alphabet {0,1,5,.,-,+,e} up to length 5 (thorough: 6) is given to the parser and the restricted constructors: the reference grammar ([sign] digits [. digits] | [sign] . digits, optional exponent) decides whether it is a decimal numeral and its value; an accepted string must be one, with exactly that value", "bounded: decimals are the literals of family D (signs x listed coefficients of 1..40 digits x listed exponents in -34..+40, in scientific and plain notation, plus unusual spellings and non-decimal strings); all ordered pairs of accepted literals are evaluated; nothing is sampled",
 		"the reference is math/big (big.Rat/big.Int) and verif/harness/ref.Parse; no function of types/math is used to compute an expected value",
 		"an error return is accepted for every operation (the statement allows 'exact result or an error'); error counts per operation are reported so that vacuous passes are visible",
 		"Mul/Quo accuracy demanded: |result-exact| < 1 unit of the 34th significant digit of the exact value (twice the half-unit of correct rounding)",
@@ -587,7 +613,7 @@ func C19(tier string) int {
 	// 2. ordered pairs
 	var valued []c19Lit
 	for _, l := range lits {
-		if l.R != nil && l.Mode != c19Recorded {
+		if l.R != nil && l.Mode != c19Recorded && l.Fam != "enum" {
 			valued = append(valued, l)
 		}
 	}
